@@ -38,11 +38,13 @@ pub enum Class {
     SameViaSpelling,
     /// several sources selected by ONE --glob pattern, destination not a directory
     MultiViaGlobToNonDir,
+    /// two sources with the same basename map onto one destination path (cp: "will not overwrite just-created")
+    DuplicateTargets,
 }
 const CLASSES: &[Class] = &[
     Class::NoArgs, Class::SinglePath, Class::MissingSource, Class::DirWithoutRecursive, Class::MultiToNonDir, Class::DirOntoFile, Class::SameAsDest, Class::SameAsDestBasename,
     Class::ForceNoClobber, Class::BadDriver, Class::BadReflink, Class::BadBackup, Class::BadBlockSize, Class::BadWorkers, Class::UnknownFlag, Class::BadGlob,
-    Class::SameViaSymlink, Class::SameViaHardlink, Class::SameViaSpelling, Class::MultiViaGlobToNonDir,
+    Class::SameViaSymlink, Class::SameViaHardlink, Class::SameViaSpelling, Class::MultiViaGlobToNonDir, Class::DuplicateTargets,
 ];
 
 #[derive(Clone, Debug, Serialize, Deserialize)]
@@ -79,7 +81,7 @@ pub fn build(c: &Case) -> (Vec<Ent>, Vec<Vec<u8>>, u8) {
     match c.class {
         Class::MultiToNonDir | Class::MultiViaGlobToNonDir => ds %= 2, // absent or file
         Class::DirOntoFile => ds = 1,             // existing file
-        Class::DirWithoutRecursive => ds = 2 + ds % 2, // a directory, so that only the missing -r is wrong
+        Class::DirWithoutRecursive | Class::DuplicateTargets => ds = 2 + ds % 2, // a directory, so that only the missing -r is wrong
         Class::MissingSource if c.nvalid >= 1 => ds = 2 + ds % 2,
         _ => {}
     }
@@ -216,6 +218,24 @@ pub fn build(c: &Case) -> (Vec<Ent>, Vec<Vec<u8>>, u8) {
                 // "*0" matches v0 only unless another name ends in 0: add one
                 ents.push(Ent::file(b"w0", Content::data(3, 9)));
             }
+        }
+        Class::DuplicateTargets => {
+            // sub/v0 and v0 (files), or sub/vd and vd (directories), plus other valid sources around
+            if c.variant & 1 != 0 {
+                ents.push(Ent::dir(b"sub/vd"));
+                ents.push(Ent::file(b"sub/vd/other", Content::data(9, 8)));
+                valid.insert(pos, s("sub/vd"));
+                valid.push(s("vd"));
+                recursive = true;
+            } else {
+                ents.push(Ent::file(b"sub/v0", Content::data(300000, 8)));
+                if !valid.contains(&s("v0")) {
+                    valid.push(s("v0"));
+                }
+                valid.insert(pos, s("sub/v0"));
+            }
+            paths = valid;
+            paths.push(s("d"));
         }
         Class::BadGlob => {
             flags.push(s("--glob"));
